@@ -17,6 +17,10 @@ LOCK=/verif/bin/.build.lock
   mv -f /verif/bin/mhubsim.new /verif/bin/mhubsim."$PROP"
   cp -f /verif/bin/mhubsim."$PROP" /verif/bin/mhubsim
   if [ "$PROP" = C20 ]; then
+    # the connector's polling loop lives in package main: a copy is generated from /repo's current main.go
+    if ! /verif/sim/conn/gen_relay.sh 2>/verif/bin/build.err; then
+      echo "BUILD FAILED (infrastructure, not a violation):" >&2; tail -5 /verif/bin/build.err >&2; exit 2
+    fi
     if ! go1.26.8 test -c -vet=off -o /verif/bin/c20.test ./conn 2>/verif/bin/build.err; then
       echo "BUILD FAILED (infrastructure, not a violation):" >&2; tail -30 /verif/bin/build.err >&2; exit 2
     fi
